@@ -3,6 +3,7 @@ import Moyo.Props.C15
 import Moyo.Model.C08Retry
 import Moyo.Proofs.C08Retry
 import Moyo.Proofs.C08Traverse
+import Moyo.Proofs.OracleGroup
 /-
 C08 — analysis always ends with Ok or Err: no panic, hang or unbounded memory.  Property theorems only.
 
@@ -99,10 +100,10 @@ theorem traverse_unbounded :
     rw [hinit, hsys, h]
     exact ⟨by simp, by simp [shearSeen_length]⟩
 
-/-- Non-vacuity / illustration: after 100 iterations 100 distinct matrices were stored and the next one is
-`shear^100`. -/
-example : (rotSys.run [shear] 100 rotSys.init).queue = [⟨1, 100, 0, 0, 1, 0, 0, 0, 1⟩] ∧
-    (rotSys.run [shear] 100 rotSys.init).seen.length = 100 ∧ rotSys.terminated [shear] 100 = false := by
+/-- Non-vacuity / illustration: after 50 iterations 50 distinct matrices were stored (more than any
+crystallographic point group has) and the next one is `shear^50`. -/
+example : (rotSys.run [shear] 50 rotSys.init).queue = [⟨1, 50, 0, 0, 1, 0, 0, 0, 1⟩] ∧
+    (rotSys.run [shear] 50 rotSys.init).seen.length = 50 ∧ rotSys.terminated [shear] 50 = false := by
   decide +kernel
 
 /-- The same for the loop of `HallSymbol::traverse` / `MagneticHallSymbol::traverse` (products whose key is
@@ -118,12 +119,12 @@ theorem hall_traverse_unbounded :
   exact ⟨by simp, by simp [shearSeen_length]⟩
 
 /-- Non-vacuity: a malformed Hall symbol on which the pinned tree hangs, `"P 2 3"`: its second generator is
-`3x` (default axis after a two-fold), and `2z * 3x` has infinite order — its first 60 powers are distinct
-(kernel-computed), so the visited set has already left every crystallographic point group. -/
+`3x` (default axis after a two-fold), and `2z * 3x` has infinite order — 60 iterations
+find 60 distinct rotations (kernel-computed), so the visited set has already left every crystallographic point group. -/
 example :
     let a : M3 := ⟨-1, 0, 0, 0, -1, 0, 0, 0, 1⟩   -- 2z
     let b : M3 := ⟨1, 0, 0, 0, 0, -1, 0, 1, -1⟩   -- 3x
-    48 < (hallRotSys.run [a, b] 400 hallRotSys.init).seen.length := by
+    48 < (hallRotSys.run [a, b] 60 hallRotSys.init).seen.length := by
   decide +kernel
 
 /-- **General mechanism.**  For every closure loop of the three kinds (any element type, any key, with or
@@ -162,6 +163,38 @@ theorem symmetry_search_closure_diverges {β : Type} (pmul : M3 × β → M3 × 
 example : ∀ n : Nat, (payloadSys (β := Int) (fun a b => a.2 + b.2) 0).terminated [(shear, 6)] n = false :=
   symmetry_search_closure_diverges _ _ _ 6 (by simp)
 
+/-! ## What a terminated closure loop returns -/
+
+/-- **Invariant `check_closure_key_present`** (cited by the discharge record of `translations_map[&ops12.rotation]`
+in `PrimitiveSymmetrySearch::check_closure`): when the closure loop of `PrimitiveSymmetrySearch::new` has ended, the
+rotation of the product of any two returned operations is the rotation of a returned operation — the map built
+from the returned operations has that key, the index expression cannot panic.  (Holds for every payload
+arithmetic; the rotations returned are the monoid generated by the accepted rotations.) -/
+theorem check_closure_key_present {β : Type} (pmul : M3 × β → M3 × β → β) (pone : β) (gens : List (M3 × β))
+    (n : Nat) (hend : ((payloadSys pmul pone).run gens n (payloadSys pmul pone).init).queue = []) :
+    ∀ x, x ∈ ((payloadSys pmul pone).run gens n (payloadSys pmul pone).init).out →
+    ∀ y, y ∈ ((payloadSys pmul pone).run gens n (payloadSys pmul pone).init).out →
+      (x.1.mul y.1) ∈ (((payloadSys pmul pone).run gens n (payloadSys pmul pone).init).out.map Prod.fst) := by
+  intro x hx y hy
+  have hkeys := seen_eq_out_keys (payloadSys pmul pone) gens M3.mul (fun _ _ => rfl) n
+  have hclosed := seen_closed_of_terminated (payloadSys pmul pone) gens M3.mul (fun _ _ => rfl)
+    M3.mul_assoc (fun a => M3.mul_one a) n hend
+  have hxs : x.1 ∈ ((payloadSys pmul pone).run gens n (payloadSys pmul pone).init).seen := by
+    rw [hkeys]; exact List.mem_map_of_mem hx
+  have hys : y.1 ∈ ((payloadSys pmul pone).run gens n (payloadSys pmul pone).init).seen := by
+    rw [hkeys]; exact List.mem_map_of_mem hy
+  have := hclosed x.1 hxs y.1 hys
+  rw [hkeys] at this
+  exact this
+
+/-- Non-vacuity: generators `4z` with translation 3/12 and `2x` (payload = translation in twelfths along z, added
+up): the loop ends within 30 iterations and returns the 8 rotations of the point group 422. -/
+example :
+    let S := payloadSys (β := Int) (fun a b => (a.2 + b.2) % 12) 0
+    let gens : List (M3 × Int) := [(⟨0, -1, 0, 1, 0, 0, 0, 0, 1⟩, 3), (⟨1, 0, 0, 0, -1, 0, 0, 0, -1⟩, 0)]
+    (S.run gens 30 S.init).queue = [] ∧ (S.run gens 30 S.init).out.length = 8 := by
+  decide +kernel
+
 /-! ## Group-closure loops: bounded with the cap of the proposed fix -/
 
 /-- **Positive.**  `traverse` with the cap (stop as soon as more than `cap` elements were found — the proposed
@@ -188,11 +221,11 @@ example :
 /-! ## Integer normal forms -/
 
 /-- The loops of `HNF::new` always end by their own `break` (`Moyo.C15.hnf_completed`). -/
-theorem hnf_terminates {m n : Nat} (A : IMat m n) : (NF.hnf A).completed = true := C15.hnf_completed A
+theorem hnf_terminates {m n : Nat} (A : IMat m n) : (hnf A).completed = true := C15.hnf_completed A
 
 /-- The `while let` loops of `SNF::new` always end (`Moyo.C15.snf_completed`). -/
-theorem snf_terminates {m n : Nat} (A : IMat m n) : (NF.snf A).completed = true := C15.snf_completed A
+theorem snf_terminates {m n : Nat} (A : IMat m n) : (snf A).completed = true := C15.snf_completed A
 
-example : (NF.snf (IMat.ofFlat 3 3 #[-9, -10, -10, -3, -9, 6, 8, -12, -5])).completed = true := snf_terminates _
+example : (snf (IMat.ofFlat 3 3 #[-9, -10, -10, -3, -9, 6, 8, -12, -5])).completed = true := snf_terminates _
 
 end Moyo.C08
